@@ -17,7 +17,7 @@ ID = "C10"
 N = {"quick": 170, "thorough": 6500}
 BUDGET = {"quick": 240.0, "thorough": 2400.0}
 RULE = ("case = (single-tree shape, mutation count per edge incl. mutations above the root, user "
-        "timegrid of 2-7 points, prior distribution, eps, probability space, outside_standardize); "
+        "timegrid of 2-7 points, prior rows (built by tsdate / arbitrary positive / with holes), eps, probability space, outside_standardize); "
         "thorough additionally enumerates ALL shapes with <=4 leaves x ALL mutation patterns over "
         "{0,1,3}; distinct by (shape hash, mutation pattern, grid, options); non-trivial = >=1 "
         "non-sample node and the enumeration was compared with posterior and likelihood")
@@ -169,11 +169,26 @@ def case(ctx, i, rec):
     except Exception as e:
         rec.count("prior_build_failed:" + type(e).__name__)
         return
+    # "any discretised prior": rows as tsdate builds them (no mass at the first timepoint), arbitrary
+    # strictly positive rows, or rows with holes - set through the public item assignment
+    pmode = ["built", "positive", "holes", "built"][int(rng.integers(4))]
+    if pmode != "built":
+        for u in range(ts.num_nodes):
+            if ts.nodes_flags[u] & tskit.NODE_IS_SAMPLE:
+                continue
+            row = rng.uniform(0.05, 1.0, size=len(tp))
+            if pmode == "holes" and len(tp) > 2:
+                row[rng.random(len(tp)) < 0.3] = 0.0
+                if not np.any(row > 0):
+                    row[int(rng.integers(len(tp)))] = 0.5
+            if rng.random() < 0.5:
+                row = row / row.sum()
+            prior[u] = row
     prior_lin = prior.clone_with_new_data(grid_data=np.array(prior.grid_data, copy=True), fixed_data=np.array(prior.fixed_data, copy=True))
     marg, logZ, nassign = enumerate_model(ts, prior_lin, mu, eps)
-    rec.sig = zoo.ts_sig(ts, G, distr, space, std, repr(eps), repr(tp[:3]))
+    rec.sig = zoo.ts_sig(ts, G, distr, pmode, space, std, repr(eps), repr(tp[:3]))
     if i < 3 or (ctx.tier == "thorough" and i in (nq, nq + 1)):
-        rec.sample = dict(desc, grid=tp.tolist(), prior=distr, eps=eps, space=space, outside_standardize=std,
+        rec.sample = dict(desc, grid=tp.tolist(), prior=distr, prior_rows=pmode, eps=eps, space=space, outside_standardize=std,
                           mutation_rate=mu, assignments_enumerated=nassign)
     if not np.isfinite(logZ):
         rec.count("skipped_model_has_zero_mass")
@@ -194,6 +209,7 @@ def case(ctx, i, rec):
     grid = np.array([post[nm] for nm in names]).T
     rec.nontrivial = True
     rec.count(f"cases:{space}")
+    rec.count(f"cases:prior_{pmode}")
     rec.count("assignments_enumerated", nassign)
     if rootm:
         rec.count("cases_with_root_mutations")
@@ -234,6 +250,6 @@ def post(ctx, agg):
 
 
 def reach(ctx, agg):
-    need = {"cases:linear": 40, "cases:logarithmic": 40, "cases_with_polytomy": 20,
+    need = {"cases:linear": 40, "cases:logarithmic": 40, "cases:prior_positive": 15, "cases:prior_holes": 10, "cases_with_polytomy": 20,
             "cases_with_root_mutations": 10, "nodes_compared": 200}
     return [f"{k} = {agg.cnt.get(k, 0)} < {v}" for k, v in need.items() if agg.cnt.get(k, 0) < v]
